@@ -64,7 +64,10 @@ def unit_files_for(prop):
     r = []
     for p in sorted(glob.glob(os.path.join(VERIF, "contracts", "*.toml"))):
         sc = load_sidecar(p)
-        if prop in sc.get("properties", []) or prop == "ALL":
+        allp = set(sc.get("properties", []))
+        for f in sc.get("fn", []) + sc.get("arm", []):
+            allp.update(f.get("props", []))
+        if prop in allp or prop == "ALL":
             r.append((p, sc))
     return r
 
